@@ -201,11 +201,11 @@ fn check(acc: &mut Acc, idx: usize, node: &Node, tag: &str) {
     acc.class(format!("{} {:?} dim{:?}", tag, sig_dims, exp.map(|e| e.2)));
     acc.sample(idx, || json!({"geometry": format!("{:?}", g), "expected_centroid": exp.map(|e| [e.0, e.1])}));
     for (oname, off) in [("0", (0.0, 0.0)), ("1.5e8", (1.5e8, -1.5e8))] {
-        let gg = g.map_coords(|c| Coord { x: c.x + off.0, y: c.y + off.1 });
+        let gg = map_geom_f(&g, &|c| Coord { x: c.x + off.0, y: c.y + off.1 });
         // 2^-30 and 2^40 only at the origin: power-of-two scaling is exact, so the centroid must scale exactly (no absolute size thresholds)
         let scales: &[f64] = if off.0 == 0.0 { &[1.0, 2.0, 1.0 / 1073741824.0, 1099511627776.0] } else { &[1.0, 2.0] };
         for &scale in scales {
-            let gs = gg.map_coords(|c| Coord { x: c.x * scale, y: c.y * scale });
+            let gs = map_geom_f(&gg, &|c| Coord { x: c.x * scale, y: c.y * scale });
             let got = guard(|| gs.centroid());
             acc.evals += 1;
             let tol = if off.0 == 0.0 { 1e-12 } else { 1e-6 } * scale;
@@ -305,6 +305,9 @@ pub fn run(mut run: Run) -> i32 {
         Leaf::EmptyMpt,
         Leaf::Rc((0, 0), (2, 1)),
         Leaf::Tr((0, 0), (2, 0), (0, 2)),
+        // a CLOCKWISE triangle (tuple constructor keeps the order) and a clockwise polygon: weights are areas, not signed areas
+        Leaf::Tr((1, 0), (1, 2), (2, 2)),
+        Leaf::Pg(vec![(0, 0), (0, 2), (1, 2), (1, 0)], vec![]),
     ];
     let na = alpha.len();
     let mut colls: Vec<Node> = vec![Node::Gc(vec![])];
